@@ -1012,12 +1012,15 @@ impl<'a> Check<'a> {
                 causes.push("unexplained");
                 ctx.violation(
                     json!({"kind": "document_triples_wrong", "format": "n3", "cause": "unexplained_whole_load_differs_from_sum_of_isolated_block_loads"}),
-                    self.witness(json!({"observed": observed, "trigger": trigger})),
+                    self.witness(json!({"observed": observed, "trigger": trigger, "note": "the 1000-line blocks loaded alone do not mirror what the loader did, so they are not used to name further causes for this load"})),
                 );
+                // the isolated blocks are not representative of this load: stop here
+                return causes;
             }
             explained = true;
         }
-        // (b) the parts against the document
+        // (b) the parts against the document (the parts are representative: either the whole
+        // load equals their sum, or the index holds exactly their private id triples)
         let e = doc.quad_set();
         if u == e {
             if !explained {
